@@ -182,7 +182,6 @@ RECV = {
     "Std::ImmutableBox": ["ImmutableBox(1)"],
     "Std::Error": ['Error("x")', 'Error("")'],
     "Std::String::Position": ["String::Position(1, 2, 3)", "String::Position(0, 1, 1)"],
-    "Std::String::Span": ["String::Span(String::Position(0, 1, 1), String::Position(4, 1, 5))"],
     "Std::Object": ["Object()"],
     # singleton / module receivers (class methods)
     "&Std::Date": ["::Std::Date"], "&Std::Time": ["::Std::Time"], "&Std::DateTime": ["::Std::DateTime"],
@@ -196,6 +195,8 @@ for _e in ("Std::FormatError", "Std::IndexError", "Std::OutOfRangeError", "Std::
            "Std::FileSystemError", "Std::InvalidTimezoneError", "Std::OpenClosureError"):
     RECV[_e] = ['%s("x")' % _e.replace("Std::", "::Std::", 1)]
 
+# classes whose constructor is called but whose instances are not used as receivers (the constructor does not yield an instance)
+INIT_ONLY = {"Std::String::Span"}
 # element type of the receiver (what the type parameters Val / Key / Value / Element stand for)
 CHAR_ELEM = {"Std::String::CharIterator", "Std::String::GraphemeIterator", "Std::String"}
 BYTE_ELEM = {"Std::String::ByteIterator"}
@@ -422,7 +423,7 @@ def gen_calls(tab, rng, thorough, only=None, probes=None, typing=None):
             continue
         ns = r["ns"]
         recvs = RECV.get(ns) if r["name"] != "#init" else [""]
-        if r["name"] == "#init" and ns not in RECV:
+        if r["name"] == "#init" and ns not in RECV and ns not in INIT_ONLY:
             recvs = None
         if not recvs:
             skip("no-receiver-catalogue:" + ("Std::Elk::*" if ns.lstrip("&").startswith("Std::Elk") else "other"))
@@ -732,6 +733,12 @@ def member(cls, tset, tab, selfns):
 def panic_class(detail):
     d = re.sub(r"0x[0-9a-f]+", "0x", detail)
     d = re.sub(r"\d+", "N", d)
+    if "is not a reference" in d:
+        return "value-is-not-a-reference"
+    if "big.Float(NaN)" in detail:
+        return "big-float-nan"
+    if "fatal error: fault" in detail:
+        return "nil-dereference"      # unexpected fault address: the same wild read as the SIGSEGV form
     if "invalid method" in d:
         return "invalid-method"
     if "interface conversion" in d:
@@ -830,7 +837,7 @@ def stream_calls(ctx, tab, elk, bad_rows, only_keys=None):
     conf_list = [confirm[k] for k in sorted(confirm)][:ctx.n(400, 100000)]
     for i, c in enumerate(chosen + conf_list):
         c["id"] = "c%d" % i
-    size = 40
+    size = 50
     chunks = [chosen[i:i + size] for i in range(0, len(chosen), size)]
     res, pres = run_chunks(elk, chunks, workdir, "p") if chunks else ({}, {})
     # a crashed call is re-run alone (up to 2 more times) so that a load-dependent crash is not blamed on the method; only the
@@ -956,7 +963,7 @@ RULE_CALLS = (
     "boundary/BigInt, all fixed-width ints with their extremes, floats incl. NaN/inf, BigFloat, strings, chars, symbols, bool, nil, "
     "lists/tuples/maps/records/sets incl. empty and singleton, finite/beginless ranges over Int/Char/Float, their iterators, regex, "
     "pair, Date/Time/DateTime and their spans with zero/negative/mixed-sign/divisible components, timezone, path, boxes, errors; "
-    "SEVERAL receiver values per class) is called through generated top-level Elk programs (`elk run`, 40 calls per program, each "
+    "SEVERAL receiver values per class) is called through generated top-level Elk programs (`elk run`, 50 calls per program, each "
     "in do/catch printing the runtime class of the result or of the thrown value) for EVERY admitted positional argument count "
     "(and 0/2 rest arguments). Arguments: for a parameter whose declared type T can be written in source (classes, unions, named "
     "types such as CoercibleNumeric/AnyInt/Duration, interfaces, any) every catalogue value of EVERY member class of T (member "
@@ -992,13 +999,19 @@ def run(ctx):
         "known finding. NOT proved, only sampled by executing generated programs (c28.calls): that the native function bodies index args "
         "within the registered count, that results are instances of the declared return type and thrown errors are covered by the declared "
         "throw type; membership is the simple structural one described in the stream rule (generics and structural interfaces accept "
-        "everything). The protocol model is hand-written from vm/thread.go and types/checker/method.go; named arguments and post-rest "
+        "everything). c28.calls is an IMPLEMENTATION-LEVEL oracle (no Coq model of return types or of overload selection): it calls "
+        "every executable row with several receivers and, per declared parameter type, several values of every member class - through a "
+        "local declared with the declared type (so the un-specialised overload is the one reached) and as literals (specialised "
+        "overloads) - and additionally calls one parameterless native method of the declared return class on each result. "
+        "The protocol model is hand-written from vm/thread.go and types/checker/method.go; named arguments and post-rest "
         "parameters are represented only by the slot count.")
     ctx.trusted_base += [
         "harness/cmd/c28gen: reflection over types.NewGlobalEnvironment() and value.RootModule after the package initialisers of the elk binary",
         "the call-protocol model (hand-written from vm/thread.go callNativeMethod/populateMissingParametersOnStack/opInstantiate and "
         "types/checker/method.go argument normalisation)",
-        "c28.calls: receiver/argument catalogue, program template, and the structural type-membership test in checks/C28.py",
+        "c28.calls: receiver/argument value catalogue, the checker's own overload selection for declared-type locals (which row a generated "
+        "call reaches is decided by the Elk checker, not verified), program template, result probe choice, and the structural "
+        "type-membership test in checks/C28.py",
     ]
     import time
     t0 = time.time()
